@@ -446,3 +446,41 @@ func TestConcurrentReads(t *testing.T) {
 		})
 	}
 }
+
+// TestRegionSuffixFromAmbientConfiguration: the usual production set-up - no client injected, the
+// metastore builds its own from the ambient AWS configuration (here: AWS_REGION, no network
+// needed to construct it). GetRegionSuffix is the configured region iff suffixes are enabled.
+func TestRegionSuffixFromAmbientConfiguration(t *testing.T) {
+	for _, kv := range [][2]string{{"AWS_EC2_METADATA_DISABLED", "true"}, {"AWS_ACCESS_KEY_ID", "verif"}, {"AWS_SECRET_ACCESS_KEY", "verif"},
+		{"AWS_CONFIG_FILE", "/nonexistent"}, {"AWS_SHARED_CREDENTIALS_FILE", "/nonexistent"}} {
+		t.Setenv(kv[0], kv[1])
+	}
+	var total int64
+	for _, region := range []string{"us-west-2", "eu-central-1", "ap-southeast-2"} {
+		t.Setenv("AWS_REGION", region)
+		for _, on := range []bool{true, false} {
+			for _, optsFirst := range []bool{true, false} {
+				opts := []v2metastore.Option{v2metastore.WithRegionSuffix(on)}
+				if !optsFirst {
+					opts = append([]v2metastore.Option{v2metastore.WithTableName("CustomTable")}, opts...)
+				}
+				ms, err := v2metastore.NewDynamoDB(opts...)
+				if err != nil {
+					t.Fatalf("harness: NewDynamoDB without a client failed offline: %v", err)
+				}
+				total++
+				want := ""
+				if on {
+					want = region
+				}
+				if got := ms.GetRegionSuffix(); got != want {
+					msg := fmt.Sprintf("dynamodb-v2 built from the ambient configuration (AWS_REGION=%s, WithRegionSuffix(%v)): GetRegionSuffix() = %q, expected %q", region, on, got, want)
+					kit.Rec.Violation(msg)
+					t.Fatalf("C13 violated: %s", msg)
+				}
+			}
+		}
+	}
+	kit.Rec.Enumerated(total, total)
+	kit.Rec.LabelN("region-suffix-from-ambient-config", total)
+}
